@@ -88,51 +88,63 @@ def be_signed(v, n):
     return list((v % (1 << (8 * n))).to_bytes(n, 'big'))
 
 
-class Unit:
-    """one real USD behind the real handlers of a thread-less System"""
-    def __init__(self, impl, idx, clock0):
+class Line:
+    """real USDs (consecutive indexes) behind the real `_parse` of a thread-less System"""
+    def __init__(self, impl, idxs, clock0):
         self.System, self.USD, self.clk = impl
-        self.idx = idx
+        self.idxs = list(idxs)
         self.clk.ticks = clock0
-        self.u = self.USD(idx)
+        self.units = [self.USD(i) for i in self.idxs]
         s = self.System.__new__(self.System)
         s.initialized = False
         s._set_default()
-        s.min_usd_index = idx
-        s.drivers = [self.u]
+        s.min_usd_index = self.idxs[0]
+        s.drivers = self.units
         self.sys = s
-        self.attrs0 = set(vars(self.u))
+        self.attrs0 = set(vars(self.units[0]))
 
     # -- events ----------------------------------------------------------------
-    def cmd(self, code, start, params):
-        """returns ('R', [bytes]) | ('V',) | ('E', repr) | ('B',)"""
-        name = self.System.functions.get(code)
+    def _parse(self, frame):
+        """returns ('R', [bytes]) | ('S',) | ('V',) | ('E', repr) | ('B',)"""
+        from simulators import utils
+        frame += utils.checksum(frame)
         try:
-            if name is None:
-                from simulators import utils
-                frame = chr(start) + chr((((len(params) + 1) & 7) << 5) | self.idx) + chr(code)
-                frame += ''.join(chr(p) for p in params)
-                frame += utils.checksum(frame)
-                r = self.sys._parse(frame)
-            else:
-                r = getattr(self.sys, name)([0, start, list(params)])
+            r = self.sys._parse(frame)
         except WouldBlock:
             return ('B',)
         except ValueError:
             return ('V',)
         except Exception as ex:   # noqa
             return ('E', '%s: %s' % (type(ex).__name__, ex))
+        if r is True:
+            return ('S',)
         if isinstance(r, str) and r:
             return ('R', [ord(c) for c in r])
         return ('E', 'returned %r' % (r,))
 
+    def uni(self, j, code, start, params):
+        """a complete unicast message (start, [nbytes:3|address:5], command, parameters, checksum)
+        handed to the real System._parse"""
+        assert len(params) <= 6
+        frame = chr(start) + chr(((len(params) + 1) << 5) | self.idxs[j]) + chr(code)
+        return self._parse(frame + ''.join(chr(p) for p in params))
+
+    def bcast(self, code, start, params):
+        assert len(params) <= 6
+        frame = chr(start) + chr(0) + chr(len(params) + 1) + chr(code)
+        return self._parse(frame + ''.join(chr(p) for p in params))
+
     def tick(self, k):
         self.clk.ticks += k
-        self.u.calc_position(k / 1024.0)
+        for u in self.units:
+            u.calc_position(k / 1024.0)
+
+    def snapshots(self):
+        return [self.snapshot(j) for j in range(len(self.units))]
 
     # -- observation -----------------------------------------------------------------
-    def snapshot(self):
-        u = self.u
+    def snapshot(self, j=0):
+        u = self.units[j]
         if set(vars(u)) != self.attrs0:
             raise HarnessError('attribute set changed: %r' % sorted(set(vars(u)) ^ self.attrs0))
 
@@ -188,6 +200,17 @@ class Unit:
         return d
 
 
+class Unit(Line):
+    """a line of one unit"""
+    def __init__(self, impl, idx, clock0):
+        Line.__init__(self, impl, [idx], clock0)
+        self.idx = idx
+        self.u = self.units[0]
+
+    def cmd(self, code, start, params):
+        return self.uni(0, code, start, params)
+
+
 # ---------------------------------------------------------------------------
 # Coq rendering
 
@@ -227,13 +250,29 @@ def coq_outcome(o):
         return 'None'
     if o[0] == 'R':
         return '(Some (OReply %s))' % zlist(o[1])
-    return {'V': '(Some OValueError)', 'E': '(Some OException)', 'B': '(Some OBlock)'}[o[0]]
+    return {'V': '(Some OValueError)', 'E': '(Some OException)', 'B': '(Some OBlock)',
+            'S': '(Some OSilent)'}[o[0]]
 
 
 def coq_event(e):
     if e[0] == 'cmd':
         return '(ECmd %s %s %s)' % (zlit(e[1]), zlit(e[2]), zlist(e[3]))
     return '(ETick %s)' % zlit(e[1])
+
+
+def coq_levent(e):
+    if e[0] == 'uni':
+        return '(LUni %d%%nat %s %s %s)' % (e[1], zlit(e[2]), zlit(e[3]), zlist(e[4]))
+    if e[0] == 'bcast':
+        return '(LBcast %s %s %s)' % (zlit(e[1]), zlit(e[2]), zlist(e[3]))
+    return '(LTick %s)' % zlit(e[1])
+
+
+def coq_line_case(idxs, clock0, events, observations):
+    return '(%s, %s, [%s], [%s])' % (
+        zlist(idxs), zlit(clock0), '; '.join(coq_levent(e) for e in events),
+        ';\n '.join('(%s, [%s])' % (coq_outcome(o), '; '.join(coq_snapshot(x) for x in ss))
+                    for o, ss in observations))
 
 
 def coq_case(idx, clock0, events, observations):
@@ -389,6 +428,70 @@ def run_history(impl, rng, profile, length, on_step=None):
         if o is not None and o[0] in ('B', 'E'):
             break     # after an internal error the implementation's state is not meaningful
     return idx, clock0, events, obs
+
+
+def apply_levent(line, e):
+    if e[0] == 'tick':
+        line.tick(e[1])
+        return None
+    if e[0] == 'uni':
+        return line.uni(e[1], e[2], e[3], e[4])
+    return line.bcast(e[1], e[2], e[3])
+
+
+class _View:
+    """what pick_event needs of a unit"""
+    def __init__(self, u):
+        self.u = u
+
+
+def run_line_history(impl, rng, length, on_step=None, bcast_share=0.2):
+    """one history on a fresh line of 2..4 units: unicast commands to random units, broadcasts,
+    time steps.  returns (idxs, clock0, events, [(outcome, [snapshots])]); on_step(line, event,
+    outcome, before_snapshots, after_snapshots)"""
+    n = rng.choice([2, 2, 3, 4])
+    first = rng.randrange(0, 32 - n + 1)
+    idxs = list(range(first, first + n))
+    clock0 = rng.choice([1, 1024, rng.randrange(1, 1 << 30)])
+    line = Line(impl, idxs, clock0)
+    profile = rng.choice(['motion', 'motion', 'delayed', 'config'])
+    events, obs = [], []
+    before = line.snapshots()
+    for _ in range(length):
+        j = rng.randrange(n)
+        e = pick_event(rng, _View(line.units[j]), profile)
+        if e[0] == 'cmd':
+            if rng.random() < bcast_share:
+                code = rng.choice([0x11, 0x11, e[1]]) if profile == 'motion' else e[1]
+                params = [] if code == 0x11 and code != e[1] else e[3]
+                e = ('bcast', code, e[2], params)
+            else:
+                e = ('uni', j, e[1], e[2], e[3])
+        o = apply_levent(line, e)
+        after = line.snapshots()
+        events.append(e)
+        obs.append((o, after))
+        if on_step:
+            on_step(line, e, o, before, after)
+        before = after
+        if o is not None and o[0] in ('B', 'E'):
+            break
+    return idxs, clock0, events, obs
+
+
+def replay_line(impl, idxs, clock0, events, on_step=None):
+    line = Line(impl, idxs, clock0)
+    before = line.snapshots()
+    for e in events:
+        e = tuple(e)
+        o = apply_levent(line, e)
+        after = line.snapshots()
+        if on_step:
+            on_step(line, e, o, before, after)
+        before = after
+        if o is not None and o[0] in ('B', 'E'):
+            break
+    return line
 
 
 def apply_event(unit, e):
